@@ -36,6 +36,8 @@ M = [
  ("c01_compress_budget_plus_one", ["C05", "C01", "C16"], S+"falcon.rs", "            params.sig_bytelen - 41,\n", "            params.sig_bytelen - 40,\n"),
  # ---- C02
  ("c02_bound_plus_one_512", ["C02"], S+"falcon.rs", "                sig_bound: 34034726,", "                sig_bound: 34034727,"),
+ ("env_verify_bound_plus_one_on_one_cpu", ["C02"], S+"falcon.rs", "    length_squared <= params.sig_bound\n}", "    length_squared <= params.sig_bound + (std::thread::available_parallelism().map(|p| p.get()).unwrap_or(2) == 1) as i64\n}"),
+ ("env_compress_run_cap_on_two_cpus", ["C07"], S+"encoding.rs", "            if high_bits == 95 || index + 1 == bitvector.len() {", "            thread_local! { static CPUS: usize = std::thread::available_parallelism().map(|p| p.get()).unwrap_or(1); }\n            if high_bits == 95 + (CPUS.with(|c| *c) == 2) as i16 || index + 1 == bitvector.len() {"),
  ("c02_bound_minus_one_1024", ["C02"], S+"falcon.rs", "                sig_bound: 70265242,", "                sig_bound: 70265241,"),
  ("c02_balanced_threshold", ["C02", "C12"], S+"falcon_field.rs", "        let g = (value > ((Q as i16) / 2)) as i16;", "        let g = (value >= ((Q as i16) / 2)) as i16;"),
  ("c02_ignore_last_salt_byte", ["C02"], S+"falcon.rs", "    let r_cat_m = [sig.r.to_vec(), m.to_vec()].concat();\n    let c = hash_to_point(&r_cat_m, n);\n\n    let s2 = match", "    let mut r_cat_m = [sig.r.to_vec(), m.to_vec()].concat();\n    if m.len() > 200 {\n        r_cat_m[39] = sig.r[38];\n    }\n    let c = hash_to_point(&r_cat_m, n);\n\n    let s2 = match"),
